@@ -56,11 +56,15 @@ LEVEL_A = [
          what='mysql dialect: OFFSET is an `id` alternative, so a SELECT whose OFFSET directly follows a target or a table (from `(SELECT a) OFFSET 1`) prints `SELECT a OFFSET 1`, where OFFSET is read as an alias and the number is a syntax error (the mindsdb dialect was repaired in 8fa9192 / 7ca02af by a precedence declaration; fixes/C01_15.diff ports it to mysql)',
          site='`id` rule (OFFSET alternative) of dialects/mysql/parser.py, dialects/mindsdb/parser.py'),
     dict(key='string-escapes', feats=['str-quote'], allow=['str-bs', 'str-nl', 'str-dquote'],
-         what="a string with a quote that is printed outside Constant.get_string is not escaped: CREATE JOB a (a) EVERY 'it''s' prints EVERY 'it's' (SHOW ... LIKE repaired in 31b242b, the Constant codec in 2843e02)",
+         what="a string with a quote printed outside Constant.get_string is not escaped: CREATE JOB a (a) START '\\'' prints START ''' (CreateJob formats its START / END / EVERY strings raw; SHOW ... LIKE repaired in 31b242b, the Constant codec in 2843e02)",
          site='dialects/mindsdb/create_job.py CreateJob.get_string'),
     dict(key='string-backslash', feats=['str-bs'], allow=['str-quote', 'str-nl', 'str-dquote'],
-         what='string values containing a backslash are printed unescaped (KF-C04-1, KF-C04-5 seen through the statement round trip)',
-         site='ast/select/constant.py Constant.get_string'),
+         what='a string with a backslash printed outside Constant.get_string is not escaped: CREATE JOB a (a) START "\\\\\\\\" (the value \\\\) prints START \'\\\\\', read back as one backslash',
+         site='dialects/mindsdb/create_job.py CreateJob.get_string'),
+    dict(key='string-newline', feats=['str-nl'], allow=['str-dquote'],
+         what='a string value with a newline (or tab) inside a USING / SET / PARAMETERS list or an ENGINE name is printed by json.dumps / repr with the two-character '
+              'escape \\n, which unescape_string keeps as backslash + n: CREATE AGENT a USING a = \'a<newline>\' prints a="a\\n" and reads back a different value',
+         site='parser/utils.py params_to_string (json.dumps), create_database.py (repr / json.dumps), select.py / create_predictor.py USING printers'),
     dict(key='float-exp', feats=['float-exp'], allow=['float'],
          what='a float whose repr uses an exponent prints as 1e-05 / 1.0000000000000001e+23, which is not a numeric literal of the grammars (KF-C04-8)',
          site='ast/select/constant.py Constant.get_string: str(self.value)'),
@@ -86,7 +90,8 @@ WITNESS = {
     'ident-bq': ('mindsdb', 'SELECT * FROM ( SELECT 1 ) AS `alter`'), 'var-quoted': ('mindsdb', 'SELECT @`a b`'),
     'prints-repr': ('mindsdb', 'UPDATE SKILL a SET a = a'), 'prints-None': ('mindsdb', 'SHOW ENGINE'),
     'interval': ('mindsdb', "SELECT INTERVAL 'a b' a"), 'offset-bare': ('mysql', '( select a ) OFFSET 1'),
-    'string-escapes': ('mindsdb', "CREATE JOB a ( a ) EVERY 'it''s'"),
+    'string-escapes': ('mindsdb', "CREATE JOB a ( a ) START '\\''"), 'string-backslash': ('mindsdb', 'CREATE JOB a ( a ) START "\\\\\\\\"'),
+    'string-newline': ('mindsdb', "CREATE AGENT a USING a = 'a\n'"),
 }
 # further minimised inputs seen in earlier searches (kept so that their classes stay listed)
 EXTRA = [('mindsdb', 'SELECT a "."'), ('mindsdb', 'CREATE AGENT a USING a = 1'), ('mindsdb', "select @'a b'"),
@@ -99,7 +104,8 @@ FIXED = {'KF-C01-1': 'fa4fc42', 'KF-C01-6': '6a738d8', 'KF-C01-11': '31b242b', '
          'KF-C01-28': 'edb99ae', 'KF-C01-29': 'edb99ae', 'KF-C01-31': 'bce2da8', 'KF-C01-32': 'edb99ae', 'KF-C01-33': '7cd7916',
          'KF-C01-34': '7cd7916', 'KF-C01-35': '7cd7916', 'KF-C01-37': '7cd7916', 'KF-C01-40': 'bce2da8', 'KF-C01-41': 'bce2da8',
          'KF-C01-42': '31b242b', 'KF-C01-2': '2ba2fb1', 'KF-C01-8': '31b242b', 'KF-C01-9': '35a9412', 'KF-C01-15': '56ba270',
-         'KF-C01-19': '2ba2fb1', 'KF-C01-23': '9d78ee7', 'KF-C01-30': '31b242b', 'KF-C01-43': '2ba2fb1', 'KF-C01-16': 'bce2da8', 'KF-C01-22': '?', 'KF-C01-39': '?'}
+         'KF-C01-19': '2ba2fb1', 'KF-C01-23': '9d78ee7', 'KF-C01-30': '31b242b', 'KF-C01-43': '2ba2fb1', 'KF-C01-10': '439b325', 'KF-C01-4': '2e49ec5', 'KF-C01-36': '2e49ec5', 'KF-C01-16': '41b46ef',
+         'KF-C01-44': '99eda7f', 'KF-C01-22': 'b1dd7a3', 'KF-C01-39': 'b1dd7a3'}
 FIXED_NEW = [dict(property='C01', status='fixed', commit='8cbc399',
                   what='fixed: property=C01 8cbc399 CREATE AGENT without a model printed `USING model=None, ...`, which was read back as the '
                        'identifier None (print-unstable): CREATE AGENT a USING a = 1',
@@ -206,7 +212,7 @@ def main():
             signatures=sigs, witness=dict(dialect=e0['dialect'], sql=e0['shrunk'], printed=e0.get('printed'))))
     # ---- stable ids: an entry keeps the id of the merged entry with the same `class` text; repaired ones become `fixed`
     merged = [k for k in json.load(open(os.path.join(ROOT, 'known_findings.json')))['findings'] if k['property'] == 'C01']
-    by_class = {k['class']: k for k in merged}
+    by_class = {k['class']: k for k in merged if k.get('status') == 'open'}     # a repaired entry is never re-opened: new id
     used = set()
     nxt = max([int(k['id'].split('-')[-1]) for k in merged] + [0])
     for k in out:
